@@ -255,6 +255,8 @@ int main(int argc, char *argv[])
 		}
 	}
 
-	exit(err);
+	/* Only the low 8 bits of the status reach the parent: 256 failures
+	 * must not read as success */
+	exit(err > 255 ? 255 : err);
 }
 
